@@ -185,6 +185,12 @@ func (sc *Scope) call(e ECall) Val {
 		}
 		return sc.applyUF(uf, ts)
 	}
+	// x.M(args) where x is a variable in scope: pure method of x
+	if i := strings.IndexByte(e.Fun, '.'); i > 0 {
+		if recv, ok := sc.tryEval(EIdent{e.Fun[:i]}); ok && recv.Ty != nil {
+			return sc.pureMethod(recv, e.Fun[i+1:], e.Args)
+		}
+	}
 	sc.fail("unknown function %s", e.Fun)
 	return Val{}
 }
@@ -270,7 +276,11 @@ func (sc *Scope) pureMethod(recv Val, name string, rest []Expr) Val {
 		}
 		args = append(args, v.T)
 	}
-	return Val{T: x.methodUF(key, recv.Ty, sig, args), Ty: sig.Results().At(0).Type()}
+	t := x.methodUF(key, recv.Ty, sig, args)
+	if !x.c.mentionsBound(t) {
+		x.noteOutsideRef(sig.Results().At(0).Type(), t)
+	}
+	return Val{T: t, Ty: sig.Results().At(0).Type()}
 }
 
 func hasOpt(ct *FnContract, k string) bool { _, ok := ct.Options[k]; return ok }
